@@ -7,6 +7,7 @@
 (*                                                                         *)
 (* A peer message is one of                                                *)
 (*   server side: cer_ok cer_bad cer_noid cer_sec dwr ccr cca ulr rar      *)
+(*                cer_ok_wfail (acceptable CER, the CEA write fails)       *)
 (*   client side: cea_ok cea_fail dwr ccr cca ulr rar                      *)
 (* Step(side, regs, s, m) gives the next state and what must be observed   *)
 (* while the message is processed: application handlers fired, answers     *)
@@ -19,7 +20,11 @@ RegCCR == [t |-> "name", app |-> 0, code |-> 0, req |-> FALSE, name |-> "CCR", h
 RegCCA == [t |-> "name", app |-> 0, code |-> 0, req |-> FALSE, name |-> "CCA", hid |-> 2]
 RegULR == [t |-> "idx", app |-> 16777251, code |-> 316, req |-> TRUE, name |-> "", hid |-> 3]
 RegALL == [t |-> "all", app |-> 0, code |-> 0, req |-> FALSE, name |-> "", hid |-> 4]
-RegsOf(cfg) == CASE cfg = "all"    -> <<RegCCR, RegCCA, RegULR, RegALL>>
+\* the same handlers registered by index only (answer index and catch-all index included)
+RegCCRi == [t |-> "idx", app |-> 4, code |-> 272, req |-> TRUE, name |-> "", hid |-> 1]
+RegCCAi == [t |-> "idx", app |-> 4, code |-> 272, req |-> FALSE, name |-> "", hid |-> 2]
+RegsOf(cfg) == CASE cfg \in {"all", "noaddr"} -> <<RegCCR, RegCCA, RegULR, RegALL>>
+                 [] cfg = "idx"    -> <<RegCCRi, RegCCAi, RegULR, RegALL>>
                  [] cfg = "noall"  -> <<RegCCR, RegCCA, RegULR>>
                  [] cfg = "onlyall" -> <<RegALL>>
 \* handler ids of the override attempts ("CER","CEA","DWR" by name; base CER/CEA/DWR by index): must never fire
@@ -32,7 +37,12 @@ AppMsg(m) == CASE m = "ccr" -> [msg |-> [app |-> 4, code |-> 272, req |-> TRUE],
 IsApp(m) == m \in {"ccr", "cca", "ulr", "rar"}
 FailCode(m) == CASE m = "cer_bad" -> 5010 [] m = "cer_noid" -> 5012 [] m = "cer_sec" -> 5017
 
-Init0 == [hs |-> FALSE, closed |-> FALSE]
+\* wbroken: a transport write has failed; the buffered writer keeps the error and every later
+\* write on the connection fails too
+Init0 == [hs |-> FALSE, closed |-> FALSE, wbroken |-> FALSE]
+\* can the answer to a CER be delivered?  cfg "noaddr": no host address configured and the local
+\* endpoint has no numeric port, so no CEA can be built at all
+CanAnswer(cfg, s) == cfg # "noaddr" /\ ~s.wbroken
 Quiet(s) == [s |-> s, fired |-> <<>>, wrote |-> <<>>, anydwa |-> FALSE]
 
 Step(side, cfg, s, m) ==
@@ -42,12 +52,17 @@ Step(side, cfg, s, m) ==
        ELSE LET d == Dispatch(RegsOf(cfg), AppMsg(m).msg, AppMsg(m).short) IN
             [s |-> s, fired |-> IF d = 0 THEN <<>> ELSE <<d>>, wrote |-> <<>>, anydwa |-> FALSE]
   ELSE IF m = "dwr" THEN
-       IF s.hs THEN [s |-> s, fired |-> <<>>, wrote |-> <<[cmd |-> 280, rc |-> 2001]>>, anydwa |-> FALSE]
+       IF s.hs THEN [s |-> s, fired |-> <<>>, wrote |-> IF s.wbroken THEN <<>> ELSE <<[cmd |-> 280, rc |-> 2001]>>, anydwa |-> FALSE]
        ELSE [s |-> s, fired |-> <<>>, wrote |-> <<>>, anydwa |-> TRUE]   \* before the handshake a DWA may or may not be written
   ELSE IF side = "server" THEN
        IF s.hs THEN Quiet(s)                                            \* any CER after the handshake is ignored
-       ELSE IF m = "cer_ok" THEN [s |-> [s EXCEPT !.hs = TRUE], fired |-> <<>>, wrote |-> <<[cmd |-> 257, rc |-> 2001]>>, anydwa |-> FALSE]
-       ELSE [s |-> [s EXCEPT !.closed = TRUE], fired |-> <<>>, wrote |-> <<[cmd |-> 257, rc |-> FailCode(m)]>>, anydwa |-> FALSE]
+       ELSE IF m = "cer_ok_wfail" THEN \* acceptable CER whose CEA the transport refuses: no exchange has succeeded
+            [s |-> [s EXCEPT !.wbroken = TRUE], fired |-> <<>>, wrote |-> <<>>, anydwa |-> FALSE]
+       ELSE IF m = "cer_ok" THEN
+            IF CanAnswer(cfg, s) THEN [s |-> [s EXCEPT !.hs = TRUE], fired |-> <<>>, wrote |-> <<[cmd |-> 257, rc |-> 2001]>>, anydwa |-> FALSE]
+            ELSE Quiet(s)                                               \* no success CEA was written: the gate stays shut
+       ELSE [s |-> [s EXCEPT !.closed = TRUE], fired |-> <<>>,
+             wrote |-> IF CanAnswer(cfg, s) THEN <<[cmd |-> 257, rc |-> FailCode(m)]>> ELSE <<>>, anydwa |-> FALSE]
   ELSE \* client: cea_ok / cea_fail (at most one per history)
        IF m = "cea_ok" THEN [s |-> [s EXCEPT !.hs = TRUE], fired |-> <<>>, wrote |-> <<>>, anydwa |-> FALSE]
        ELSE [s |-> [s EXCEPT !.closed = TRUE], fired |-> <<>>, wrote |-> <<>>, anydwa |-> FALSE]
